@@ -282,7 +282,7 @@ namespace avel {
 
         #if defined(AVEL_AVX512VL) || defined(AVEL_AVX10_1)
         auto mask = b << N;
-        return mask4x64u{__mmask8((decay(m) & ~mask) | mask)};
+        return mask4x64u{__mmask8((decay(m) & ~(decltype(mask)(1) << N)) | mask)};
 
         #elif defined(AVEL_AVX2)
         return mask4x64u{_mm256_insert_epi64(decay(m), b ? -1ll : 0, N)};
